@@ -253,7 +253,19 @@ def make_sd(loop, addr=("10.0.0.1", 30490), timings=None, net=None, mcast=MCAST)
     return prot, tr
 
 
+TIMINGS_FIELDS = ("INITIAL_DELAY_MIN", "INITIAL_DELAY_MAX", "REQUEST_RESPONSE_DELAY_MIN", "REQUEST_RESPONSE_DELAY_MAX", "REPETITIONS_MAX",
+                  "REPETITIONS_BASE_DELAY", "CYCLIC_OFFER_DELAY", "FIND_TTL", "ANNOUNCE_TTL", "SUBSCRIBE_TTL", "SUBSCRIBE_REFRESH_INTERVAL",
+                  "SEND_COLLECTION_TIMEOUT")
+_TIMINGS_COUNT = [0]
+
+
 def timings(**kw):
+    """a Timings object; every third one is built POSITIONALLY in the published field order (a configuration loader doing
+    Timings(*row)), the others by keyword"""
     import someip.sd as S
 
+    _TIMINGS_COUNT[0] += 1
+    if _TIMINGS_COUNT[0] % 3 == 0:
+        d = S.Timings()
+        return S.Timings(*[kw.get(f, getattr(d, f)) for f in TIMINGS_FIELDS])
     return S.Timings(**kw)
